@@ -47,13 +47,15 @@ for _n, _b in (
     ('JsonSchemaValidationError', 'Exception'),
 ):
     _mk(_n, _b)
+_mk('HTTPUnsupportedMediaType', 'HTTPException')
+_mk('HTTPBadRequest', 'HTTPException')
 _mk('UserObject', 'object')          # opaque user object (context, tracer, ...)
 _mk('UserCallable', 'object')        # abstract callable (user method, middleware, handler, transport)
 # kinds of abstract user callables / objects; their assumed behaviour is stated in contracts/oracles.py
 for _n in ('UserMethod', 'UserMiddleware', 'UserErrorHandler', 'UserTransport', 'UserJitter', 'UserCallback',
-           'UserExcludeFn', 'UserIdGen', 'UserLoader', 'UserDumper', 'UserValidator'):
+           'UserExcludeFn', 'UserIdGen', 'UserLoader', 'UserDumper', 'UserValidator', 'UserStatusFn'):
     _mk(_n, 'UserCallable')
-for _n in ('UserTracer', 'UserContext', 'UserView', 'UserIdIter'):
+for _n in ('UserTracer', 'UserContext', 'UserView', 'UserIdIter', 'ExtHttpRequest', 'ExtHttpResponse', 'ExtWsgiEnviron'):
     _mk(_n, 'UserObject')
 
 
